@@ -79,6 +79,7 @@ def stratum(line):
         key.append(",".join("%s:%s:%s:%s" % (a_.get("kind"), bool(a_.get("alias")), a_.get("validate") or "", next((sg["type"] for sg in m.get("sig", []) if sg["name"] == a_.get("value")), ""))
                             for a_ in m.get("anns", [])) if len(m.get("anns", [])) == 1 else "")
         key.append("%s|%s|%s|%s" % (",".join(kinds), m.get("desc", ""), len(m.get("sig", [])), ",".join(str(g) for g in m.get("groups", []))))
+        key.append("%s|%s|%s" % (m.get("response"), len(m.get("ret", [])), len(m.get("errors", []))))      # the response side: declared code x value/no value x error list
     key.append(",".join(sorted(t["name"] + (":" + t["fields"][0]["type"] if t["name"] in ("Hostile", "Rules") and t.get("fields") else "") for t in cs.get("types", []))))
     return json.dumps(key)
 
@@ -239,7 +240,7 @@ def build_recording(tier):
     # (cfg, simulate-walks, sample-size, extra pipe-run flags)
     V0, A0 = ["--validate=false"], ["--alt=false"]
     plan = [("Pipeline_c04.cfg", None, 500 if thorough else 72, V0), ("Pipeline_c01sim.cfg", 500 if thorough else 30, None, []), ("Pipeline_c01core.cfg", None, 10 ** 6 if thorough else 36, []),
-            ("Pipeline_sim.cfg", 500 if thorough else 30, None, []),      # (in-process Validate too: diagnostics of multi-file, multi-controller projects - C18) ("Pipeline_c06single.cfg", None, 10 ** 6 if thorough else 70, V0), ("Pipeline_c06grp.cfg", None, 10 ** 6 if thorough else 16, V0), ("Pipeline_c06sim.cfg", 700 if thorough else 20, None, V0),
+            ("Pipeline_sim.cfg", 500 if thorough else 30, None, []),      # (in-process Validate too: diagnostics of multi-file, multi-controller projects - C18) ("Pipeline_c06single.cfg", None, 10 ** 6 if thorough else 70, V0), ("Pipeline_c06grp.cfg", None, 10 ** 6 if thorough else 16, V0), ("Pipeline_c06resp.cfg", None, 10 ** 6 if thorough else 40, V0), ("Pipeline_c06sim.cfg", 700 if thorough else 20, None, V0),
             ("Pipeline_c07sim.cfg", 700 if thorough else 36, None, V0), ("Pipeline_c11rules.cfg", None, 10 ** 6, V0), ("Pipeline_c11rulesp.cfg", None, 10 ** 6, V0), ("Pipeline_c10core.cfg", None, 10 ** 6, A0), ("Pipeline_c10.cfg", None, 1000 if thorough else 24, A0), ("Pipeline_c10mask.cfg", None, 400 if thorough else 24, A0),
             ("Pipeline_c10maskcore.cfg", None, 10 ** 6, A0), ("Pipeline_c10enf.cfg", None, 10 ** 6, A0), ("Pipeline_c10twin.cfg", None, 10 ** 6, A0),
             ("Pipeline_c13sim.cfg", 300 if thorough else 24, None, V0 + A0),
